@@ -81,6 +81,8 @@ def stub_missing_modules():
             importlib.import_module(name)
         except Exception:       # noqa: BLE001
             m = types.ModuleType(name)
+            # any name imported from the stub is an inert placeholder class
+            m.__getattr__ = lambda attr, _n=name: type(attr, (), {"__module__": _n})
             sys.modules[name] = m
             if "." in name:
                 parent = sys.modules.get(name.rsplit(".", 1)[0])
